@@ -3,12 +3,14 @@ use crate::runner::Tier;
 use crate::PropDef;
 
 pub mod concchecks;
+pub mod misc;
 pub mod seqchecks;
 
 pub fn all() -> Vec<PropDef> {
     let mut v = Vec::new();
     v.extend(seqchecks::defs());
     v.extend(concchecks::defs());
+    v.extend(misc::defs());
     v
 }
 
